@@ -5,9 +5,10 @@ C31 — Date and IP codecs agree with the standard library.  Property theorems o
 import FhVerif.Proofs.HttpDate
 import FhVerif.Proofs.IPAddr
 import FhVerif.Model.URI
+import FhVerif.Proofs.IPv6b
 
 namespace Fh.Props.C31
-open Fh Fh.Model Fh.Spec Fh.Proofs.HttpDate Fh.Proofs.IPAddr
+open Fh Fh.Model Fh.Spec Fh.Proofs.HttpDate Fh.Proofs.IPAddr Fh.Proofs.IPv6
 
 /-! ### HTTP dates -/
 
@@ -40,6 +41,13 @@ theorem httpdate_roundtrip (c : Civil) (hv : c.valid = true) (hy : c.year ≤ 99
   unfold parseRFC1123DateGMT
   rw [parse_append c hv hy]; rfl
 
+
+/-- C31 (round trip, on instants): every Unix second of the years 0000–9999 is the instant of some valid UTC civil
+    time, and AppendHTTPDate's output for it is read back to exactly that second by the fast parser. -/
+theorem httpdate_roundtrip_unix (n : Int) (h1 : -62167219200 ≤ n) (h2 : n ≤ 253402300799) :
+    ∃ c : Civil, c.valid = true ∧ civilUnix c = n ∧ parseRFC1123DateGMT (appendHTTPDate c) = some n := by
+  obtain ⟨c, hv, hy, hu⟩ := civil_of_unix n h1 h2
+  exact ⟨c, hv, hu, by rw [httpdate_roundtrip c hv hy, hu]⟩
 
 /-! ### IPv4 -/
 
@@ -161,10 +169,27 @@ theorem ipv6_literal_checked (t : Bytes) (h : validateIPv6Literal (91 :: t) = no
           intro hc; simp at hz; exact hz (by simpa using hc)
         · cases h
 
-/-- the full IPv6 clause: every address validIPv6Addr accepts is an RFC 4291 §2.2 text form (`Spec.ipv6TextSpec`),
-    and every zone-less text form is accepted.  Decided on every run by the exhaustive small-alphabet enumeration
-    (model = spec = net/netip on all strings over {1 a : .} up to length 8 / 10) and the structured literals. -/
-def C31_ipv6_full : Prop := ∀ addr : Bytes, validIPv6Addr addr = ipv6TextSpec addr
+/-- C31 (IPv6, soundness): every address validateIPv6Literal's address checks accept is an RFC 4291 §2.2 text form:
+    eight groups of 1–4 hex digits, or one "::" standing for at least one group, the last two groups optionally
+    written as a dotted quad without leading zeros. -/
+theorem ipv6_accept_implies_spec (addr : Bytes) (h : validIPv6Addr addr = true) : ipv6TextSpec addr = true :=
+  validIPv6Addr_spec addr h
+
+/-- embedded IPv4 parts accepted by validIPv4 are strict dotted quads (what net/netip accepts) -/
+theorem validIPv4_implies_strict_quad (s : Bytes) (h : validIPv4 s = true) : isStrictQuad s = true :=
+  (validIPv4_spec s h).1
+
+/-- C31 (URI level): a bracketed host that URI.parse accepts has, between '[' and the closing ']' and in front of
+    the optional zone, an RFC 4291 text form of an IPv6 address. -/
+theorem bracket_host_is_ipv6 (h t : Bytes) (hp : parseHost h = .ok (91 :: t)) :
+    ipv6TextSpec ((t.takeWhile (· != 93)).takeWhile (· != 37)) = true := by
+  have hv := uri_host_validated h _ hp
+  exact ipv6_accept_implies_spec _ (ipv6_literal_checked t hv).2.2.1
+
+/-- the completeness half of the IPv6 clause ("every zone-less IPv6 address is accepted"): stated, not proved.
+    It is decided on every run by the exhaustive enumeration of all strings over {1 a : .} up to length 8 / 10
+    (model = Lean spec = net/netip, both directions) and by the structured literals through URI.Parse. -/
+def C31_zoneless_complete_full : Prop := ∀ addr : Bytes, ipv6TextSpec addr = true → validIPv6Addr addr = true
 
 /-! non-vacuity -/
 example : parseRFC1123DateGMT (ofString "Mon, 02 Jan 2006 15:04:05 GMT") = some 1136214245 := by decide +kernel
